@@ -1,7 +1,7 @@
 from props import TB_COMMON
 ENTRY = dict(
     level="proof",
-    level_text=("ENGINE LEVEL (Props/EngineSteps, any program / state / configuration): an arrival at a parallel gateway that still misses an incoming token is held (nothing continues, nothing observed: par_step_holds); the arrival that completes the set clears the record and sends out exactly one token per outgoing flow (par_step_releases_all, from distribute_partition). KERNEL: Lean 4 theorems for every number of waiting tokens, outgoing flows, arrival sequence and number of "
+    level_text=("ENGINE LEVEL (Props/EngineSteps, any program / state / configuration): an arrival at a parallel gateway that still misses an incoming token is held (nothing continues, nothing observed: par_step_holds); the arrival that completes the set clears the record and sends out exactly one token per outgoing flow (par_step_releases_all, from distribute_partition); lifted to arrival SEQUENCES of any length, in any order, by tokens of any identity: par_join_waits (fewer arrivals than incoming flows: nothing continues, nothing observed, the record is the arrivals in order) and par_join_fires (the completing arrival: one token per outgoing flow, record empty again — ready for the next activation). KERNEL: Lean 4 theorems for every number of waiting tokens, outgoing flows, arrival sequence and number of "
                 "activations: distribute hands every outgoing flow to exactly one waiting token (the concatenation of the "
                 "slices is 0..M-1), consumes exactly N-M surplus tokens, and the gateway actor releases nothing before the "
                 "N-th arrival, releases on it, and returns to its initial state (k releases after k*N+r arrivals). Tied to "
